@@ -18,6 +18,7 @@ func runC16(c *Ctx) {
 	ruleEntry(c, a)
 	// "a status naming its outcome": the stages run in order — decrypt, then parse/validate, then send — so the first failing stage names the status
 	ruleSendGuard(c, a, "STAGES")
+	ruleBufSize(c, a, "BUFSIZE") // "its wire size": a datagram cut short by a small buffer is reported with the wrong size
 	ruleClientReport(c, a)
 	ruleTargetReport(c, a)
 	ruleArityAll(c, "ARITY")
